@@ -76,21 +76,18 @@ def reErr {α β : Type} : ProvRes α → ProvRes β
   | .noWitness => .noWitness
   | _ => .err
 
-variable (lc : Nat → ProvRes LightBlock)
-
-/-- `AppHash(height)`: the app hash after `height` is in the header of `height+1`; `height+2`
-must verify too -/
-def lcAppHash (height : Nat) : ProvRes Bytes :=
-  match lc (height + 1) with
+/-- `AppHash`: from the verification results for `height+1` and `height+2` -/
+def assembleAppHash (r1 r2 : ProvRes LightBlock) : ProvRes Bytes :=
+  match r1 with
   | .ok b =>
-    match lc (height + 2) with
+    match r2 with
     | .ok _ => .ok b.appHash
     | e => reErr e
   | e => reErr e
 
-/-- `Commit(height)` -/
-def lcCommit (height : Nat) : ProvRes LcCommit :=
-  match lc height with
+/-- `Commit`: from the verification result for `height` -/
+def assembleCommit (r0 : ProvRes LightBlock) : ProvRes LcCommit :=
+  match r0 with
   | .ok b => .ok { height := b.height, blockHash := b.hash }
   | e => reErr e
 
@@ -104,13 +101,15 @@ def checkParams (maxBlock : Int) (want : Nat) (trusted : Int × Int) : ProvRes P
     else .ok r.params
   | e => reErr e
 
-/-- `State(height)`; `rpc` is the primary's `/consensus_params`, `ih` the configured initial height -/
-def lcState (maxBlock : Int) (rpc : Nat → ProvRes ParamsResp) (ih : Nat) (height : Nat) : ProvRes LcState :=
-  match lc height with
+/-- `State`: from the verification results for `height`, `height+1`, `height+2` and the primary's
+`/consensus_params`; `ih` is the configured initial height -/
+def assembleState (maxBlock : Int) (rpc : Nat → ProvRes ParamsResp) (ih : Nat)
+    (r0 r1 r2 : ProvRes LightBlock) : ProvRes LcState :=
+  match r0 with
   | .ok last =>
-    match lc (height + 1) with
+    match r1 with
     | .ok cur =>
-      match lc (height + 2) with
+      match r2 with
       | .ok next =>
         match checkParams maxBlock cur.height cur.consHashed (rpc cur.height) with
         | .ok p =>
@@ -123,6 +122,20 @@ def lcState (maxBlock : Int) (rpc : Nat → ProvRes ParamsResp) (ih : Nat) (heig
       | e => reErr e
     | e => reErr e
   | e => reErr e
+
+variable (lc : Nat → ProvRes LightBlock)
+
+/-- `AppHash(height)`: the app hash after `height` is in the header of `height+1`; `height+2`
+must verify too. (`lc` = `VerifyLightBlockAtHeight` as a function of the height; the version
+threading the light client's state is `Tmv.Model.StateProviderLight`.) -/
+def lcAppHash (height : Nat) : ProvRes Bytes := assembleAppHash (lc (height + 1)) (lc (height + 2))
+
+/-- `Commit(height)` -/
+def lcCommit (height : Nat) : ProvRes LcCommit := assembleCommit (lc height)
+
+/-- `State(height)` -/
+def lcState (maxBlock : Int) (rpc : Nat → ProvRes ParamsResp) (ih : Nat) (height : Nat) : ProvRes LcState :=
+  assembleState maxBlock rpc ih (lc height) (lc (height + 1)) (lc (height + 2))
 
 /-! ## what the node does with the answers -/
 
